@@ -311,3 +311,26 @@ def chunked(seq, n):
             buf = []
     if buf:
         yield buf
+
+
+def pmap_ordered(fn, chunks, check=None, nproc=16, prebuild=("plain",)):
+    """like pmap but results come back in input order (stops early at the deadline)"""
+    import multiprocessing as mp
+    for v in prebuild:
+        worker_exe(v)
+    chunks = list(chunks)
+    if len(chunks) <= 1 or nproc <= 1:
+        for c in chunks:
+            if check and check.expired():
+                check.cov["exhaustive"] = False
+                return
+            yield fn(c)
+        return
+    ctx = mp.get_context("fork")
+    with ctx.Pool(nproc) as pool:
+        for r in pool.imap(fn, chunks):
+            yield r
+            if check and check.expired():
+                check.cov["exhaustive"] = False
+                pool.terminate()
+                return
